@@ -50,6 +50,12 @@ def deleg(ctx, prog, eff, rule, body, pattern, closures=(), want=""):
     return ok
 
 
+from ..outcomes import outcome_spec
+
+
+NONE = AGG("Option", "None")
+
+
 def prov(prog, trait, name):
     bs = prog.find(in_trait=trait, name=name)
     return bs[0] if len(bs) == 1 else None
@@ -204,30 +210,22 @@ def run(ctx, progs):
         if not b:
             ctx.ob("C02.anchor", "prov(prog, GR, 'to_region_addr')", False, "", "anchor body not found (renamed or removed): the rule cannot be evaluated — fail closed")
         if b:
-            t = single(b)
-            env = {}
-            ok = t is not None and match(C("Option::and_then", C("Address::checked_offset_from", P(2), C("GuestMemoryRegion::start_addr", P(1))), CLO("c")), t, env)
-            if ok:
-                cb, ct = closure_ret(prog, eff, env["c"])
-                # closure param 2 = offset ; capture = self of parent
-                ok = ct is not None and match(C("GuestMemoryRegion::check_address", P(1), AGG("MemoryRegionAddress", None, P(2))), ct, {})
-            ctx.ob("R2.1.to_region_addr", b.key, ok, b.where(), f"returns `{tstr(t) if t else '?'}`; required addr.checked_offset_from(start_addr()).and_then(|o| check_address(MemoryRegionAddress(o)))")
+            X = C("Address::checked_offset_from", P(2), C("GuestMemoryRegion::start_addr", P(1)))
+            outcome_spec(ctx, prog, eff, "R2.1.to_region_addr", b,
+                         [(C("GuestMemoryRegion::check_address", P(1), AGG("MemoryRegionAddress", None, OKP(X))), [('discr', X, 1)]),
+                          (NONE, [('discr', X, 0)])],
+                         "addr.checked_offset_from(start_addr()) is Some(o) => check_address(MemoryRegionAddress(o)); None => None")
         # ---------------- GuestMemory provided methods
         rule_last_addr(ctx, prog, eff)
         b = prov(prog, GM, "to_region_addr")
         if not b:
             ctx.ob("C02.anchor", "prov(prog, GM, 'to_region_addr')", False, "", "anchor body not found (renamed or removed): the rule cannot be evaluated — fail closed")
         if b:
-            t = single(b)
-            env = {}
-            ok = t is not None and match(C("Option::map", C("GuestMemory::find_region", P(1), P(2)), CLO("c")), t, env)
-            if ok:
-                cb, ct = closure_ret(prog, eff, env["c"])
-                e2 = {}
-                # (r, r.to_region_addr(addr).unwrap()) : same r, and addr is the parent's addr
-                ok = ct is not None and match(TUP(V("r"), C("Option::unwrap", C("GuestMemoryRegion::to_region_addr", V("r"), V("a")))), ct, e2) and \
-                    e2["r"][:2] == ('param', 2) and e2["a"][:2] == ('param', 2) and e2["a"][2] == "addr"
-            ctx.ob("R2.3.to_region_addr", b.key, ok, b.where(), "find_region(addr).map(|r| (r, r.to_region_addr(addr).unwrap())): the found region paired with ITS OWN offset of the same addr")
+            FR = C("GuestMemory::find_region", P(1), P(2))
+            outcome_spec(ctx, prog, eff, "R2.3.to_region_addr", b,
+                         [(AGG("Option", "Some", TUP(OKP(FR), C("Option::unwrap", C("GuestMemoryRegion::to_region_addr", OKP(FR), P(2))))), [('discr', FR, 1)]),
+                          (NONE, [('discr', FR, 0)])],
+                         "find_region(addr) is Some(r) => Some((r, r.to_region_addr(addr).unwrap())): the found region paired with ITS OWN offset of the same addr; None => None")
         D("R2.3.address_in_range", prov(prog, GM, "address_in_range"), C("Option::is_some", C("GuestMemory::find_region", P(1), P(2))), want="find_region(addr).is_some()")
         b = prov(prog, GM, "check_address")
         if not b:
@@ -265,17 +263,12 @@ def run(ctx, progs):
             if not b:
                 ctx.ob("R2.3." + nm, nm, False, "", "anchor missing")
                 continue
-            t = single(b)
-            env = {}
-            ok = t is not None and match(C("Result::and_then", C("Option::ok_or", C("GuestMemory::to_region_addr", P(1), P(2)), AGG("Error", "InvalidGuestAddress", P(2))), CLO("c")), t, env)
-            if ok:
-                cb, ct = closure_ret(prog, eff, env["c"])
-                if nm == "get_slice":
-                    ok = ct is not None and match(C(call, F(P(2), "0"), F(P(2), "1"), P(3)), ct, {})
-                else:
-                    ok = ct is not None and match(C(call, F(P(2), "0"), F(P(2), "1")), ct, {})
-            ctx.ob("R2.3." + nm, b.key, ok, b.where(),
-                   f"returns `{tstr(t) if t else '?'}`; required to_region_addr(addr).ok_or(InvalidGuestAddress(addr)).and_then(|(r, a)| r.{nm}(a{', count' if nm == 'get_slice' else ''}))")
+            TR = C("GuestMemory::to_region_addr", P(1), P(2))
+            fwd = C(call, F(OKP(TR), "0"), F(OKP(TR), "1"), P(3)) if nm == "get_slice" else C(call, F(OKP(TR), "0"), F(OKP(TR), "1"))
+            outcome_spec(ctx, prog, eff, "R2.3." + nm, b,
+                         [(fwd, [('discr', TR, 1)]),
+                          (AGG("Result", "Err", AGG("Error", "InvalidGuestAddress", P(2))), [('discr', TR, 0)])],
+                         f"to_region_addr(addr) is Some((r, a)) => r.{nm}(a{', count' if nm == 'get_slice' else ''}); None => Err(InvalidGuestAddress(addr))")
         # ---------------- GuestRegionMmap / GuestMemoryMmap concrete methods
         REG = "mmap::GuestRegionMmap"
         b = (prog.find(adt=REG, trait=GR, name="get_host_address") or [None])[0]
